@@ -346,6 +346,8 @@ pub struct Links<'a> {
     pub pathkey: String,
     /// end lines of the same chain under exact comparison, by path key and end signature
     pub exact: Option<&'a HashMap<String, Vec<usize>>>,
+    /// the driver injects no failure and no flaky behaviour into this context
+    pub faultfree: bool,
 }
 
 pub struct CtxResult {
@@ -552,8 +554,15 @@ fn handle_end(
         b.started, b.succ, b.faildel, b.changed, b.aborted, b.rab, b.dead
     );
     if let Some(m) = links.exact {
+        // partners in the stamp-free run: the ends with the same deliveries; when this run took a
+        // turn the stamp-free run never takes (the comparison being blamed for it), and the driver
+        // injected no fault and did not abort, every end of the stamp-free run of the same world
         let k = format!("{}#{}", links.pathkey, sig);
-        o.insert("exact".into(), json!(m.get(&k).cloned().unwrap_or_default()));
+        let mut partners = m.get(&k).cloned().unwrap_or_default();
+        if partners.is_empty() && links.faultfree && !b.aborted && !b.aborting {
+            partners = m.get(&format!("{}#*", links.pathkey)).cloned().unwrap_or_default();
+        }
+        o.insert("exact".into(), json!(partners));
         o.insert("exactcmp".into(), json!(true));
     } else {
         o.insert("exact".into(), json!([]));
